@@ -313,6 +313,22 @@ Section Quantile.
       + rewrite Eq. repeat split; auto.
   Qed.
 
+  (* the statement after the loop of get_quantile (which averages the WEIGHT of the last centroid with max_) cannot execute:
+     once min / max have answered for weight < 1 and weight > total - 1, the loop always finds its segment *)
+  Theorem quantile_fallthrough_unreachable mn mx cs cw r : Good mn mx cs cw -> (2 <= length cs)%nat ->
+    1 <= r * inject_Z cw -> r * inject_Z cw <= inject_Z cw - 1 ->
+    q_loop QO cs (r * inject_Z cw) (wsf0 cs) <> None.
+  Proof.
+    intros G Hl A B. destruct (good_shape mn mx cs cw G) as (c0 & t & -> & W0 & M0 & Wl & Ml & Hp & Hs & Hcw).
+    destruct t as [|c1 t']; [simpl in Hl; lia|].
+    unfold wsf0. cbn [cnth nth]. rewrite W0. qr.
+    assert (Hw : 1 / 2 == 1 # 2) by reflexivity.
+    destruct (q_loop_some (r * inject_Z cw) (c1 :: t') c0 (1 / 2)) as (q & Eq).
+    - lra.
+    - rewrite endpos_val, W0, Wl, <- Hcw. change (inject_Z 1) with 1. lra.
+    - rewrite Eq. discriminate.
+  Qed.
+
   Lemma good_mn_le_mx mn mx cs cw : Good mn mx cs cw -> mn <= mx.
   Proof.
     intro G. destruct (good_shape mn mx cs cw G) as (c0 & t & -> & W0 & M0 & Wl & Ml & Hp & Hs & Hcw).
